@@ -31,7 +31,8 @@ KB = 64.0        # multiples of the running rounding-error bound that numpy may 
 NEEDED = ["Model/Consts", "Model/Effects", "Model/MetricIR", "Model/MetricEval", "Gen/Consts_gen", "Gen/Decorator_gen",
           "Gen/Metrics_gen", "Gen/Registry_gen", "Proofs/MetricLemmas", "Proofs/ClosedForms", "Proofs/Resolved",
           "Proofs/RegistryOk", "Props/C06",
-          "Model/MetricRdepth", "Proofs/RoundingBounds", "Proofs/RdepthSound", "Proofs/RdepthTable", "Proofs/RdepthWitness"]
+          "Model/MetricRdepth", "Proofs/RoundingBounds", "Proofs/RdepthSound", "Proofs/RdepthTable", "Proofs/RdepthWitness",
+          "Model/MetricRdepthQ", "Proofs/RoundingBoundsQ", "Proofs/RdepthQSound", "Proofs/RdepthQTable", "Proofs/RdepthQWitness"]
 
 MODEL_CTORS = [
     ("SupervisedOPF", {}),
